@@ -12,6 +12,8 @@ impl BeanFactory<'_> {
         static INSTANCE: AtomicUsize = AtomicUsize::new(0);
         let mut ret = INSTANCE.load(Ordering::Relaxed);
         if ret == 0 {
+            #[cfg(open_coroutine_verif)]
+            crate::common::verif::pause("beans_instance_miss");
             let ptr: &'i mut BeanFactory = Box::leak(Box::default());
             ret = std::ptr::from_mut(ptr) as usize;
             INSTANCE.store(ret, Ordering::Relaxed);
@@ -71,6 +73,8 @@ impl BeanFactory<'_> {
         let factory = Self::get_instance();
         factory.0.get(bean_name).map_or_else(
             || {
+                #[cfg(open_coroutine_verif)]
+                crate::common::verif::pause("beans_get_or_default_miss");
                 let bean: &B = Box::leak(Box::default());
                 _ = factory.0.insert(
                     Box::leak(Box::from(bean_name)),
